@@ -4,3 +4,4 @@ import Driver.Lines
 import Driver.Ast
 import Driver.Html
 import Driver.Tree
+import Driver.Toc
